@@ -197,11 +197,16 @@ def r2_self_threading_agrees(ctx):
 
     from .c03 import _with_fallback
 
-    _with_fallback(ctx, ("signature", "full-call"), _skel)
+    # (the configurations that are methods: the instance comes first and every supplied argument, positional or by
+    # name, still reaches the selected method on every call shape - the early exits count one slot more for self)
+    from . import entrygen as _eg
+
+    _with_fallback(ctx, ("signature", "full-call", "early-exits", "call-shapes"), _skel, configs=[k for k, v in _eg.CONFIGS.items() if v[0]])
     # rewriter: the replacement call starts with self exactly for methods (abstract execution)
-    from .rewriter import law_self_first
+    from .rewriter import law_method_sites, law_self_first
 
     law_self_first(ctx)
+    law_method_sites(ctx)
     # dependent generator: def header and every hand-over carry the self prefix
     dg = A.dependent_generator(repo)
     ctx.touch(dg)
